@@ -264,7 +264,10 @@ func (h *WorkloadHandler) handleDeployment(newObj, oldObj *apps.Deployment) (boo
 		return false, nil
 	}
 	rss, err := h.Finder.GetReplicaSetsForDeployment(newObj)
-	if err != nil || len(rss) == 0 {
+	if err != nil {
+		// a failed lookup is not "no replicaset": refuse the request instead of admitting the change unsupervised
+		return false, err
+	} else if len(rss) == 0 {
 		klog.Warningf("Cannot find any activate replicaset for deployment %s/%s, no need to rolling", newObj.Namespace, newObj.Name)
 		return false, nil
 	}
